@@ -10,9 +10,9 @@ from gym_gridverse.spaces import ObservationSpace, StateSpace
 
 from .desc import FLOOR, HIDDEN, NONE
 
-TYPES = {'Floor': Floor, 'Wall': Wall, 'Exit': Exit, 'Door': Door, 'Key': Key, 'MovingObstacle': MovingObstacle,
+TYPES = {'Hidden': Hidden, 'NoneGridObject': NoneGridObject, 'Floor': Floor, 'Wall': Wall, 'Exit': Exit, 'Door': Door, 'Key': Key, 'MovingObstacle': MovingObstacle,
          'Box': Box, 'Telepod': Telepod, 'Beacon': Beacon}
-TYPE_ORDER = list(TYPES)
+TYPE_ORDER = [t for t in TYPES if t not in ('Hidden', 'NoneGridObject')]
 COLOURED = ('Exit', 'Door', 'Key', 'Telepod', 'Beacon')
 REPS = ['default', 'no-overlap', 'compact']
 SHIPPED_TYPE_SETS = [
@@ -24,7 +24,7 @@ SHIPPED_TYPE_SETS = [
 ]
 
 
-def objects_of(type_names, colour_values):
+def objects_of(type_names, colour_values, box_contents=False):
     """every object descriptor a space with these types/colours admits (Box content fixed to Floor)"""
     cols = sorted(set(colour_values) | {0})
     out = []
@@ -35,9 +35,18 @@ def objects_of(type_names, colour_values):
             out += [(t, 0, c, None) for c in cols]
         elif t == 'Box':
             out.append(('Box', 0, 0, FLOOR))
+            if box_contents:
+                out.append(('Box', 0, 0, ('Key', 0, 0, None)))
+        elif t in ('Hidden', 'NoneGridObject'):
+            continue  # listed explicitly in a space: admitted anyway (Hidden in observations, NoneGridObject in the hand)
         else:
             out.append((t, 0, 0, None))
-    return out
+    seen, uniq = set(), []
+    for o in out:
+        if o not in seen:
+            seen.add(o)
+            uniq.append(o)
+    return uniq
 
 
 def state_space(shape, type_names, colour_values):
